@@ -25,7 +25,7 @@ CLAIMS = {
                  "the loop (exact rejection reasons) and characterised for build() by C08/C09; the decimal -> nanoseconds fact FL2 is a named hypothesis (C18). "
                  "Tie + oracle: abstract media playlists (what the text says) rendered in varied surface syntax; the library's report must equal the abstract "
                  "playlist field by field (segment list, URIs, durations to the ns, titles, flags, date ranges with typed client attributes, maps, byte ranges, all "
-                 "playlist-level values, unknown tags) and the text must be accepted; library and model must agree on status and observation. String level with the VALUE as quantified object (Props/C03.lean): media_any_layout - any text whose lines classify into the lines the writer prints for p, up to comments, VERSION lines and swaps of independent lines, parses to exactly p; media_canonical_text."),
+                 "playlist-level values, unknown tags) and the text must be accepted; library and model must agree on status and observation. String level with the VALUE as quantified object (Props/C03.lean): media_any_layout - any text whose lines classify into the lines the writer prints for p, up to comments, VERSION lines and swaps of independent lines, parses to exactly p; media_canonical_text. String level with the TEXT as quantified object (Props/C01Text.lean): segment_uris_text - for every text the media parser accepts (any builder configuration), the URIs of the reported segments are, one for one and in order, the trimmed non-empty lines behind #EXTM3U that do not start with '#' (nothing invented, dropped, merged or reordered); segment_count_text; every_plain_line_is_a_segment."),
         "design_ref": "DESIGN.md §0.4, §7 C01",
         "note": "K1 (independent-segments rule rejects mixed methods) reported as KNOWN-FINDING; K8 (prefix look-alike tags) was repaired by a fix: commit.",
     },
